@@ -125,3 +125,25 @@ Proof.
   rewrite AM. destruct (Nat.ltb_spec 5 (List.length args)); [lia|]. exact RN.
 Qed.
 
+
+(* for runs that end with a result (then the argument count is right) *)
+Corollary x86_codegen_correct_cf p lc cs n lc' args fuel o :
+  cf_frag p = true -> entry_int p = true -> plain_names p = true -> plain_types p = true -> lin_check_prog p = true ->
+  asm_wf cs = None -> code_small cs = true ->
+  x86_compile p lc = Ok (cs, n, lc') ->
+  run_linear fuel p args = o -> defined o = true ->
+  exists outer inner, fst (run_x86 outer inner cs args) = o.
+Proof.
+  intros CF EI PL PLT LIN WF SM XC RUN D.
+  assert (G : good o) by (left; unfold defined in D; destruct (snd o); try discriminate; eauto).
+  eapply x86_codegen_simulates_cf; eauto; [|apply good_not_oof; exact G].
+  unfold x86_compile, x86_compile_with in XC.
+  destruct (compile x86_backend p lc) as [[[is n0] lc0]|] eqn:CP; cbn [rbind] in XC; [|discriminate].
+  destruct (into_x86_64_routine is n0) as [r|] eqn:RT; cbn [rbind] in XC; [|discriminate].
+  inversion XC; subst r n0 lc0; clear XC.
+  unfold compile in CP. unfold run_linear in RUN. destruct (pdefs p) as [|d0 rest] eqn:PD; [discriminate|].
+  destruct (translate x86_backend (ptypes p) (d0 :: rest) lc) as [[is' lc1]|] eqn:TR; cbn [rbind] in CP; [|discriminate].
+  cbn in CP. inversion CP; subst is n lc'; clear CP.
+  destruct (entry_env d0 args) as [e0|] eqn:EE; [|subst o; exfalso; destruct G as [(z & H)|(z & H)]; discriminate].
+  unfold entry_env in EE. apply bind_length in EE. unfold vars in EE. rewrite !map_length in EE. auto.
+Qed.
